@@ -166,7 +166,13 @@ def _fault_op(flavour):
             st.fixed_dictionaries({"op": st.just("add_link"), "name": st.one_of(st.just(["fresh"]), _dupname),
                                    "ltype": S(topo.LINK_TYPES), "ifs": st.lists(_k, min_size=1, max_size=3),
                                    "id": st.one_of(st.just(["fresh"]), _dupid, st.just(["none"])),
-                                   "ghost_at": st.one_of(st.none(), st.integers(0, 2)), "fault": st.just(True)}),
+                                   "ghost_at": st.one_of(st.none(), st.integers(0, 2)), "fault": st.just(True),
+                                   "repeat_at": st.one_of(st.none(), st.none(), st.integers(0, 3))}),
+            # an otherwise flawless link whose interface list names one interface twice (accepted on the pinned tree:
+            # then it is simply a building call; if it is ever refused, it must be refused as a whole)
+            st.fixed_dictionaries({"op": st.just("add_link"), "name": st.just(["fresh"]), "ltype": S(topo.LINK_TYPES),
+                                   "ifs": st.lists(_k, min_size=2, max_size=3, unique=True), "id": st.just(["fresh"]),
+                                   "ghost_at": st.none(), "fault": st.just(True), "repeat_at": st.integers(0, 3)}),
             st.fixed_dictionaries({"op": st.just("add_node"), "name": st.just(["fresh"]), "site": site,
                                    "ntype": st.just("Server"), "id": st.just(["none"]), "props": st.just({})}),
             st.fixed_dictionaries({"op": st.just("add_component"), "node": _k, "name": st.just(["fresh"]),
